@@ -22,26 +22,6 @@ ASSUMPTIONS = ['hashlib sha1; numpy .copy() yields C-contiguous float32 bytes; p
 NOT_DECIDED = 'Equality with SHA-1 of the source samples (values); equality between the two SEG-Y readers (segyio semantics).'
 
 
-def group_count_defs(f):
-    """locals defined by the per-group real-count idiom -> {name: (axis component k, file count name)}"""
-    out = {}
-    for n in ast.walk(f.node):
-        if not isinstance(n, ast.If):
-            continue
-        t = U(n.test)
-        import re
-        m = re.fullmatch(r'\((\w+) \+ 1\) \* blockshape\[(\d)\] > (\w+)', t)
-        if not m:
-            continue
-        k, cnt = int(m.group(2)), m.group(3)
-        b = [s for s in n.body if isinstance(s, ast.Assign)]
-        e = [s for s in n.orelse if isinstance(s, ast.Assign)]
-        if len(b) == 1 and len(e) == 1 and U(b[0].targets[0]) == U(e[0].targets[0]):
-            if U(b[0].value) == '%s %% blockshape[%d]' % (cnt, k) and U(e[0].value) == 'blockshape[%d]' % k:
-                out[U(b[0].targets[0])] = (k, cnt)
-    return out
-
-
 def run(ctx):
     P, G = ctx.P, ctx.G
     ctx.rule('C20.1', 'hash region = per-group real extent on the grouped axis, real extents elsewhere; once per group, before put')
@@ -56,22 +36,57 @@ def run(ctx):
     carried(ctx)
 
 
+def _exclusive(f, a, b):
+    """a and b lie in different branches of one If."""
+    def chain(n):
+        out = []
+        p, child = parent(n), n
+        while p is not None and p is not f.node:
+            if isinstance(p, ast.If):
+                out.append((p, 'body' if any(child is s or any(child is x for x in ast.walk(s)) for s in p.body) else 'else'))
+            child, p = p, parent(p)
+        return out
+    ca, cb = chain(a), chain(b)
+    for (n1, s1) in ca:
+        for (n2, s2) in cb:
+            if n1 is n2 and s1 != s2:
+                return True
+    return False
+
+
 def hash_region(ctx, pr):
     f = pr.func
     ups = pr.hash_updates
-    if len(ups) != 1:
-        ctx.fail('C20.1', f, f.name, 'producer %s updates the hash at %d sites (must be exactly one)' % (f.name, len(ups)))
+    if not ups:
+        ctx.fail('C20.1', f, f.name, 'producer %s never updates the hash' % f.name)
         return
-    u = ups[0]
-    gdefs = group_count_defs(f)
+    for i, a in enumerate(ups):
+        for b in ups[i + 1:]:
+            if not _exclusive(f, a, b):
+                ctx.fail('C20.1', f, enclosing_stmt(b), 'producer %s updates the hash at two sites that are not alternative '
+                         'branches: samples are hashed twice' % f.name, line=b.lineno)
+                return
+    from .. import groupcount
+    n0 = len(ctx.findings)
+    gc, gdefs = groupcount.check_producer(ctx, 'C20.1', f)
     if not gdefs:
-        raise AnalysisError('%s: per-group real-count idiom not found' % f.qualname)
+        if len(ctx.findings) > n0:
+            return       # the count itself is wrong (reported above): the hash region inherits that
+        raise AnalysisError('%s: per-group real-count definition not found' % f.qualname)
+    for u in ups:
+        _hash_site(ctx, pr, u, gdefs)
+
+
+def _hash_site(ctx, pr, u, gdefs):
+    f = pr.func
     gname, (gk, filecount) = next(iter(gdefs.items()))
     arg = u.args[0] if u.args else None
     copied = isinstance(arg, ast.Call) and isinstance(arg.func, ast.Attribute) and arg.func.attr == 'copy'
     sub = arg.func.value if copied else arg
     if not isinstance(sub, ast.Subscript):
-        ctx.fail('C20.1', f, enclosing_stmt(u), 'the hash is updated with `%s`, not with a slice of the group buffer' % U(arg)[:60])
+        ctx.fail('C20.1', f, enclosing_stmt(u), 'the hash is updated with `%s`, not with the real region of the group buffer: '
+                 'the replicated planes / traces that pad a partial last group (and any padded cells) are hashed too' % U(arg)[:60],
+                 line=u.lineno)
         return
     elts = list(sub.slice.elts) if isinstance(sub.slice, ast.Tuple) else [sub.slice]
     ndim = len(elts)
